@@ -106,7 +106,7 @@ for d in sorted(glob.glob("/verif/seeded/C*-*"), key=key):
     m = json.load(open(d + "/meta.json"))
     cut = lambda s, n: re.sub(r"\s+", " ", str(s)).replace("|", "/")[:n]
     r = ", ".join("%s: %s" % (c, {"1": "VIOLATION", "0": "missed", "2": "harness error"}.get(e, e)) for c, e in res.get(mid, [])) or "not run"
-    rows.append("| %s | %s | %s | %s | %s |" % (mid, cut(m.get("summary", ""), 170), cut(m.get("needs", ""), 140), r, NOTES.get(mid, "")))
+    rows.append("| %s | %s | %s | %s | %s |" % (mid, cut(m.get("summary", ""), 120), cut(m.get("needs", ""), 100), r, NOTES.get(mid, "")))
 
 p = "/verif/DESIGN.md"
 s = open(p).read()
